@@ -128,6 +128,9 @@ ConsAsEdges(r, c) ==   \* a constraint of the record as a sequence of user-graph
 RouteHonours(r, c, p) ==
   LET n == r.cov[1]  d == r.cov[2] IN
   IF r.cls \in DAGCls /\ UsesLengthCoverage(r) THEN RouteHonoursByLength(r, c, p)
+  ELSE IF r.cls \in DAGCls /\ r.mode = "node" /\ r.cons_kind # "node"
+  THEN  \* edge-form constraint in node mode: the fraction is taken over the items of its expansion (node, link, node, ...)
+       LET xc == XCons(r, c) IN Cardinality({j \in 1..Len(xc) : XOn(xc[j], p)}) * d >= Len(xc) * n
   ELSE IF r.cons_kind = "node"
   THEN  \* node constraints: a list of nodes; coverage counted over listed nodes
        Cardinality({j \in 1..Len(c) : Visits(c[j], p) >= 1}) * d >= Len(c) * n
